@@ -114,10 +114,10 @@ CHECKS = {
         "assumptions": ["PARTIAL: refinement of seq_eval by the composed implementation is validated by this differential, proved only per layer"],
     },
     "C11": {
-        "modules": ["p_c11"],
-        "rule": "seeded scenarios on real stacks: depth 1-4 over the seven layer kinds, base sync or the real ThreadPoolExecutor, workload "
+        "modules": ["p_c11", "p_c11g"],
+        "rule": "p_c11g: helpers.ShutdownHelper in lockstep with Model/Gate.v, 2-4 threads x 1-3 calls of helper() / ensure_alive(); p_c11: seeded scenarios on real stacks: depth 1-4 over the seven layer kinds, base sync or the real ThreadPoolExecutor, workload "
                 "idle/quick/failing (sleeping between retries)/blocked callables/polling, shutdown(wait True/False, with/without "
-                "cancel_futures) after a virtual delay, 0-2 submitters racing with it, a second shutdown, a submit afterwards; every "
+                "cancel_futures) after a virtual delay, 0-2 submitters racing with it, 0-2 further threads calling shutdown() concurrently, a second shutdown, a submit afterwards; every "
                 "layer's shutdown() is wrapped to record calls and arguments; x {random, sticky, PCT} schedules; monitor: error message, "
                 "exactly-once propagation with the same arguments, idempotence, worker threads exited when shutdown(wait=True) returns, "
                 "no hang; non-trivial = some workload and a preemption",
@@ -208,5 +208,21 @@ CHECKS = {
                         "or writes another thread's unlocked read can see); the hand-over thread logs its start",
                         "user done-callbacks on ThrottleFutures, environment-side cancellation of delegate futures and garbage "
                         "collection of the executor are outside the scenario family"],
+    },
+    "C08": {
+        "module": "p_c08",
+        "gen_lemmas": [],
+        "rule": "seeded random scenarios (1-5 submissions, 0-2 cancel() per future and 0-2 notify() from 1-3 client threads at "
+                "scripted virtual times, delegates completed/failed inline or by 1-2 environment threads with or without a "
+                "Running phase, poll function scripted per call: yield result / exception / double yields per slot, returns "
+                "int / float / None / str or raises; cancel function truthy / falsy / raising) x {random, sticky, PCT} "
+                "schedules; every implementation history is replayed event by event on Model/Poll.v (extracted); "
+                "distinct = distinct event traces; non-trivial = a poll call was shown a descriptor and a preemption occurred",
+        "assumptions": ["delegate executor, completion of its futures, the poll function, the cancel function and the clock are environment",
+                        "no done-callbacks added by users to poll futures, no shutdown before the end of the scenario, "
+                        "delegates are not cancelled behind the executor's back (C03's business)",
+                        "virtual time advances only while the poll thread is blocked in wait() and not notified",
+                        "the strict 'before the call began' reading is refuted for the faithful model (c08_descriptor_strict_refuted) "
+                        "and is known finding P2; the set is proved exact relative to the snapshot (c08_descriptor_exact_at_snapshot)"],
     },
 }
